@@ -18,8 +18,8 @@ EXPLANATION = (
     "to the level decoder is bit_width_for_max(max_rep/def_level) of the column and the dictionary "
     "index width is the page's first byte; (3) the reader's level table (shared with C17.1); (4) enum "
     "tags equal parquet.thrift (shared with C05.2) and every Thrift wire-type tag equals the compact "
-    "protocol; (5) decompress_page writes its output only inside the switch over the codec; only the "
-    "UNCOMPRESSED arm copies raw bytes, every other arm calls its decompressor; (6) no decoder-side function assembles a multi-byte integer "
+    "protocol; (5) decompress_page, executed once per codec value and size relation, copies raw bytes only for "
+    "UNCOMPRESSED and calls exactly that codec's decompressor otherwise; (6) no decoder-side function assembles a multi-byte integer "
     "with the big-endian accumulation idiom (accumulator shifted left by whole bytes, then OR-ed with the "
     "next byte): every integer of the format is little-endian. Decides these clauses, not that decoded values/levels equal the stored ones.")
 
